@@ -233,12 +233,21 @@ impl<'a, T> ChordsV2<'a, T> {
     }
 
     fn next_coord(&self) -> u16 {
-        let ret = self.next_coord.get();
-        let mut new = ret + 1;
-        if new > KEY_MAX + 50 {
-            new = KEY_MAX + 1;
+        let mut ret = self.next_coord.get();
+        // A coordinate that an active chord still uses must not be handed out again: the release
+        // of the newer chord would release the older, still held chord with it. There are fewer
+        // active chords than coordinates.
+        for _ in 0..50 {
+            let mut new = ret + 1;
+            if new > KEY_MAX + 50 {
+                new = KEY_MAX + 1;
+            }
+            self.next_coord.set(new);
+            if !self.active_chords.iter().any(|ach| ach.coordinate == ret) {
+                break;
+            }
+            ret = new;
         }
-        self.next_coord.set(new);
         ret
     }
 
